@@ -89,7 +89,8 @@ type Interp struct {
 	// supplied for Int or ID: true = it is the integer, false = it is a float (rejected).
 	IntegralFloatIsInteger bool
 	// An integer token outside the signed 64-bit range supplied where the specification
-	// itself sets no range (Float, ID, custom scalar): false = the service may reject it.
+	// itself sets no range (Float, ID, custom scalar, the unsigned 64-bit models): false =
+	// the service may reject it.
 	HugeIntegerAccepted bool
 	// `[1, $v]` with $v not provided: the 2021 text does not define the element; true = the
 	// element is null (June 2018 graphql-js behaviour and current draft), false = rejected.
@@ -116,8 +117,20 @@ const (
 	QFloatFromNumStringVar = "leniency:Float<-json-numeric-string"
 	// a JSON number with fraction/exponent supplied through variables for ID: accepted, the ID is the number's text
 	QIDFromJSONFloat = "leniency:ID<-json-float"
-	// graphql.UnmarshalInt32 (the probe's I32 scalar) accepts a string holding a base-10 integer
-	QInt32FromString = "leniency:Int32<-integer-string"
+	// the integer models (probe scalars I32/I64/U/U32/U64 bound to graphql.Int32/Int64/Uint/
+	// Uint32/Uint64) accept a string holding a base-10 integer of the type's range, as a
+	// literal and through variables; the value is that integer
+	QInt32FromString  = "leniency:Int32<-integer-string"
+	QInt64FromString  = "leniency:Int64<-integer-string"
+	QUintFromString   = "leniency:Uint<-integer-string"
+	QUint32FromString = "leniency:Uint32<-integer-string"
+	QUint64FromString = "leniency:Uint64<-integer-string"
+	// graphql.Float bound to a custom scalar (probe scalar F): a string that
+	// strconv.ParseFloat turns into a finite number is accepted, literal or variable
+	QFloatModelFromString = "leniency:Float(custom-scalar binding)<-numeric-string"
+	// "NaN", "Infinity", "inf" ... as a string: graphql.UnmarshalFloat hands the resolver a
+	// non-finite float (built-in Float through variables; custom binding also as a literal)
+	QFloatNonFiniteString = "leniency:Float<-non-finite-string"
 	// gqlparser's ast.Value.Value turns a variable WITHOUT a runtime value that is used as
 	// an input-object field value inside a literal into an explicit null: the field's default
 	// is not applied, an Omittable field is set(null), a map-backed input has the key.
@@ -233,6 +246,42 @@ func (r *Ref) idBinding(name string) string {
 	return r.IDKind
 }
 
+// intModel gives the value range of the probe's integer scalars (the range of the Go type
+// of the gqlgen model they are bound to; uint is 64 bit here) and the name of the
+// string-acceptance leniency of that model.
+func intModel(name string) (lo, hi *big.Int, quirk string) {
+	switch name {
+	case "I32":
+		return big.NewInt(math.MinInt32), big.NewInt(math.MaxInt32), QInt32FromString
+	case "I64":
+		return minInt64, maxInt64, QInt64FromString
+	case "U":
+		return big.NewInt(0), maxUint, QUintFromString
+	case "U32":
+		return big.NewInt(0), big.NewInt(math.MaxUint32), QUint32FromString
+	case "U64":
+		return big.NewInt(0), maxUint, QUint64FromString
+	}
+	panic("intModel: " + name)
+}
+
+// decimalDigits: optional '-' followed by digits only (what every strconv integer parser
+// of base 10 agrees on; "+1" and "1_0" are left out of the leniency definitions).
+func decimalDigits(s string) bool {
+	if strings.HasPrefix(s, "-") {
+		s = s[1:]
+	}
+	if s == "" {
+		return false
+	}
+	for _, c := range s {
+		if c < '0' || c > '9' {
+			return false
+		}
+	}
+	return true
+}
+
 func builtinScalar(name string) bool {
 	switch name {
 	case "Int", "Float", "String", "Boolean", "ID":
@@ -262,17 +311,35 @@ func (r *Ref) coerceScalar(name string, x in) (SV, bool) {
 			}
 		}
 		return SV{}, false
-	case "I32":
-		// the probe's scalar with the specification's Int semantics: integers in the signed
-		// 32-bit range only
+	case "I32", "I64", "U", "U32", "U64":
+		// the probe's integer scalars: the specification's Int semantics (integers only)
+		// with the range of the Go type they are bound to
+		lo, hi, quirk := intModel(name)
 		if x.kind == "number" && (x.num.intSyntax || (!x.literal && x.num.i != nil && r.In.IntegralFloatIsInteger)) {
-			if x.num.i.Cmp(big.NewInt(math.MinInt32)) >= 0 && x.num.i.Cmp(big.NewInt(math.MaxInt32)) <= 0 {
+			if !fitsInt64(x.num.i) && !r.In.HugeIntegerAccepted {
+				// (an unsigned 64-bit value beyond int64: the service may not take such tokens)
+				return SV{}, false
+			}
+			if x.num.i.Cmp(lo) >= 0 && x.num.i.Cmp(hi) <= 0 {
 				return SV{K: "int", I: x.num.i}, true
 			}
 		}
-		if x.kind == "string" && r.Q[QInt32FromString] {
-			if i, err := strconv.ParseInt(x.s, 10, 32); err == nil {
-				return SV{K: "int", I: big.NewInt(i)}, true
+		if x.kind == "string" && r.Q[quirk] {
+			if i, ok := new(big.Int).SetString(x.s, 10); ok && decimalDigits(x.s) && i.Cmp(lo) >= 0 && i.Cmp(hi) <= 0 {
+				return SV{K: "int", I: i}, true
+			}
+		}
+		return SV{}, false
+	case "F":
+		if x.kind == "number" {
+			return r.coerceScalar("Float", x)
+		}
+		if x.kind == "string" {
+			if f, err := strconv.ParseFloat(x.s, 64); err == nil {
+				finite := !math.IsInf(f, 0) && !math.IsNaN(f)
+				if (finite && r.Q[QFloatModelFromString]) || (!finite && r.Q[QFloatNonFiniteString]) {
+					return SV{K: "float", F: f}, true
+				}
 			}
 		}
 		return SV{}, false
@@ -287,9 +354,12 @@ func (r *Ref) coerceScalar(name string, x in) (SV, bool) {
 			}
 			return SV{K: "float", F: x.num.f}, true
 		}
-		if x.kind == "string" && !x.literal && r.Q[QFloatFromNumStringVar] {
+		if x.kind == "string" && !x.literal {
 			if f, err := strconv.ParseFloat(x.s, 64); err == nil {
-				return SV{K: "float", F: f}, true
+				finite := !math.IsInf(f, 0) && !math.IsNaN(f)
+				if (finite && r.Q[QFloatFromNumStringVar]) || (!finite && r.Q[QFloatNonFiniteString]) {
+					return SV{K: "float", F: f}, true
+				}
 			}
 		}
 		return SV{}, false
